@@ -92,6 +92,10 @@ func internalPaginationFromOptions(opts ...x.PaginationOptionSetter) (*internalP
 	if ip.PerPage == 0 {
 		ip.PerPage = defaultPageSize
 	}
+	if ip.PerPage < 0 {
+		// A negative size would be used as LIMIT size+1 and silently drop rows.
+		return ip, errors.WithStack(persistence.ErrMalformedPageSize)
+	}
 	return ip, ip.parsePageToken(xp.Token)
 }
 
